@@ -38,6 +38,9 @@ fn name_variants(t: &Tree, rng: &mut Rng) -> Vec<String> {
             out.push(k.clone());
             out.push(k.to_ascii_uppercase());
             out.push(k.to_ascii_lowercase());
+            // case variants beyond ASCII must NOT match (only ASCII case is ignored)
+            out.push(k.to_uppercase());
+            out.push(k.to_lowercase());
             // flip the case of one ASCII letter
             let mut f: Vec<char> = k.chars().collect();
             if !f.is_empty() {
@@ -57,6 +60,74 @@ fn name_variants(t: &Tree, rng: &mut Rng) -> Vec<String> {
     out.sort();
     out.dedup();
     out
+}
+
+/// the same questions asked of the decoded tree (`Value` methods), which is what the byte-level
+/// accessors are specified against and what the library itself uses for JSON text input
+fn value_methods(ctx: &mut Ctx, t: &Tree, enc: &[u8], names: &[String]) {
+    let info = || format!("doc={}", t.show());
+    let r = guard(|| {
+        let v = jsonb::from_slice(enc).map_err(|e| format!("{:?}", e))?;
+        let keys = v.object_keys().map(|k| Tree::from_value(&k).map(|x| x.show()));
+        let kinds = (v.is_scalar(), v.is_object(), v.is_array(), v.is_string(), v.is_number(), v.is_boolean(), v.is_null());
+        let views = (
+            v.as_object().map(|o| o.len()),
+            v.as_array().map(|a| a.len()),
+            v.as_str().map(|s| s.to_string()),
+            v.as_number().map(|n| Num::from_lib(n).canon().show()),
+            v.as_i64(),
+            v.as_u64(),
+            v.as_f64().map(|f| f.to_bits()),
+            v.as_bool(),
+            v.as_null(),
+            (v.is_i64(), v.is_u64(), v.is_f64()),
+        );
+        let by_name: Vec<Option<String>> = names.iter().map(|n| v.get_by_name_ignore_case(n).map(|x| Tree::from_value(x).map(|y| y.canon().show()).unwrap_or_default())).collect();
+        let variant = (v.eq_variant(&v.clone()), v.eq_variant(&jsonb::Value::Null), v == v.clone());
+        Ok::<_, String>((v.array_length(), keys, kinds, views, by_name, variant))
+    });
+    ctx.count("Value methods");
+    match r {
+        Err(p) => ctx.panic_violation("Value methods", &p, &info),
+        Ok(Err(e)) => ctx.violation("from_slice/err-on-valid", || format!("{} ; {}", e, info())),
+        Ok(Ok((alen, keys, kinds, views, by_name, variant))) => {
+            let n = if let Tree::Num(n) = t { Some(*n) } else { None };
+            let exp_kinds = (t.is_scalar(), matches!(t, Tree::Obj(_)), matches!(t, Tree::Arr(_)), matches!(t, Tree::Str(_)), n.is_some(), matches!(t, Tree::Bool(_)), matches!(t, Tree::Null));
+            let exp_keys = if let Tree::Obj(v) = t { Some(Ok(Tree::Arr(v.iter().map(|(k, _)| Tree::Str(k.clone())).collect()).show())) } else { None };
+            let exp_views = (
+                if let Tree::Obj(v) = t { Some(v.len()) } else { None },
+                if let Tree::Arr(v) = t { Some(v.len()) } else { None },
+                if let Tree::Str(s) = t { Some(s.clone()) } else { None },
+                n.map(|x| x.canon().show()),
+                n.and_then(|x| refops::as_i64(&x)),
+                n.and_then(|x| refops::as_u64(&x)),
+                n.map(|x| refops::as_f64(&x).to_bits()),
+                if let Tree::Bool(b) = t { Some(*b) } else { None },
+                if matches!(t, Tree::Null) { Some(()) } else { None },
+                (n.and_then(|x| refops::as_i64(&x)).is_some(), n.and_then(|x| refops::as_u64(&x)).is_some(), n.is_some()),
+            );
+            if alen != (if let Tree::Arr(v) = t { Some(v.len()) } else { None }) || keys != exp_keys || kinds != exp_kinds {
+                ctx.violation("Value::array_length/object_keys/is_*/differs", || format!("array_length={:?} keys={:?} kinds={:?} ; {}", alen, keys, kinds, info()));
+            }
+            // NaN views: compare with NaN-insensitive float bits
+            let same_views = {
+                let (a, b) = (&views, &exp_views);
+                a.0 == b.0 && a.1 == b.1 && a.2 == b.2 && a.3 == b.3 && a.4 == b.4 && a.5 == b.5 && (a.6 == b.6 || matches!((a.6, b.6), (Some(x), Some(y)) if f64::from_bits(x).is_nan() && f64::from_bits(y).is_nan())) && a.7 == b.7 && a.8 == b.8 && a.9 == b.9
+            };
+            if !same_views {
+                ctx.violation("Value::as_*/differs", || format!("views={:?} expected={:?} ; {}", views, exp_views, info()));
+            }
+            for (name, got) in names.iter().zip(by_name) {
+                let exp = refops::get_by_name(t, name, true).map(|x| x.canon().show());
+                if got != exp {
+                    ctx.violation("Value::get_by_name_ignore_case/differs", || format!("name={:?} got={:?} expected={:?} ; {}", name, got, exp, info()));
+                }
+            }
+            if variant != (true, matches!(t, Tree::Null), true) {
+                ctx.violation("Value::eq_variant/differs", || format!("{:?} ; {}", variant, info()));
+            }
+        }
+    }
 }
 
 pub fn check_doc_accessors(ctx: &mut Ctx, t: &Tree, rng: &mut Rng) {
@@ -214,7 +285,11 @@ pub fn check_doc_accessors(ctx: &mut Ctx, t: &Tree, rng: &mut Rng) {
     }
 
     // ---- get_by_name
-    for name in name_variants(t, rng) {
+    let names = name_variants(t, rng);
+    if t.nodes() < 5000 {
+        value_methods(ctx, t, &enc, &names);
+    }
+    for name in names {
         for ic in [false, true] {
             ctx.count("get_by_name");
             let n_info = || format!("name={:?} ignore_case={} ; {}", name, ic, info());
@@ -408,6 +483,22 @@ pub fn run(ctx: &mut Ctx) {
         ctx.count("huge_payload_docs");
         let mut rng = ctx.rng.fork();
         check_doc_accessors(ctx, &gen::huge_payload_doc(), &mut rng);
+    }
+    // element and member counts around 2^12 and (thorough) 2^16, once each
+    if ctx.shard == 1 % ctx.nshards && !ctx.miri {
+        let mut sizes = vec![4_096usize, 4_097, 5_000];
+        if ctx.tier == crate::monitor::Tier::Thorough {
+            sizes.extend([65_536, 65_537]);
+        }
+        for n in sizes {
+            ctx.next_case();
+            ctx.count("wide_docs");
+            let mut rng = ctx.rng.fork();
+            let arr = Tree::Arr((0..n).map(|k| if k % 9 == 0 { Tree::Str(format!("s{}", k)) } else { Tree::Num(crate::tree::Num::U(k as u64)) }).collect());
+            check_doc_accessors(ctx, &arr, &mut rng);
+            let obj = Tree::obj_from((0..n).map(|k| (format!("k{:06}", k), if k % 4 == 0 { Tree::Null } else { Tree::Num(crate::tree::Num::U(k as u64)) })).collect());
+            check_doc_accessors(ctx, &obj, &mut rng);
+        }
     }
     let mon = super::routes::Monitor::new(super::routes::ACCESSORS);
     let n = if ctx.miri { ctx.miri_cases(3) } else { ctx.budget(400_000, 8_000_000) };
